@@ -9,11 +9,31 @@
      - a cached commitment shortcuts verification only for an identical commitment, a different validly
        signed one is Equivocation;
      - in the blockstore two different commitments for one slice are Equivocation in both orders (C13 file).
-   KNOWN FINDING (recorded, not fixed): the data/coding tag is not bound by anything; a validated shred of a
-   correct leader with the tag flipped makes the blockstore flag that leader (refuted lemma below). *)
+   THE UNSIGNED TAG.  The data / coding tag of a shred is bound by neither the signature nor the Merkle proof (a
+   shred with the tag flipped still passes validation: the C12 wire-level case `data-coding-tag-flipped`).
+   Current tree ("fix: do not blame the leader for a shred whose type contradicts its index", model parameter
+   tagchk = true of bs_step_gen; bs_step = bs_step_gen true):
+     - C12_tag_flip_is_harmless: in EVERY non-panicked slot state (none other is reachable: C10 / C13), on both
+       network paths (dissemination and repair), a shred whose tag contradicts its index
+       (shred_tag_ok s = false: b_is_data <> (index <? DATA_SHREDS)) is refused with InvalidShred, no event, and
+       the state - stored shreds, commitments, the leader's misbehaviour flag - is exactly what it was;
+     - C12_tag_consistent_step_unchanged: for every other operation the step is the pinned step;
+     - C12_tag_flips_never_flag_correct_leader: for every honest block and EVERY delivery list consisting of
+       honest shreds of it and arbitrary tag-inconsistent shreds (any number, any positions, e.g. honest shreds
+       flipped in transit) the leader is never flagged, nothing panics, InvalidBlock is never announced, the only
+       returns are Ok / Duplicate / (for the flipped ones) InvalidShred, and the block is announced exactly once,
+       exactly when the tag-consistent shreds make every slice ready - with its hash and parent - and stored;
+     - C12_tag_flipped_shreds_leave_no_trace (any shreds at all): the run over l has the state and the events of
+       the run over the tag-consistent shreds of l, and its outputs are those with the refusals woven in.
+   Pinned tree (tagchk = false), kept as a refutation: C12_pinned_tag_flip_flags_correct_leader_refuted - one
+   honest shred with the tag flipped among 32 honest ones got the correct leader flagged (InvalidBlock) and the
+   block was never announced; the same deliveries on the current model announce the block.
+   ORACLE-ONLY: that the real blockstore behaves like this (c12_block_step_ok / c13_step_ok on the shape
+   honest-tag-flip and the correspondence with bs_step). *)
 From Coq Require Import String Uint63 List NArith Bool.
 From AG Require Import Lib.Sha256 Lib.Hex Model.Merkle Model.MerkleSha Model.ShredAuth Model.Pool Model.Blockstore
-                       Proofs.MerkleProofs Proofs.ShredAuthProofs Proofs.BlockstoreProofs Gen.Params.
+                       Model.BlockstoreSpec Proofs.MerkleProofs Proofs.ShredAuthProofs Proofs.BlockstoreProofs
+                       Proofs.BlockstoreTagProofs Gen.Params.
 Import ListNotations.
 
 Theorem C12_commitment_injective : forall s1 i1 l1 r1 s2 i2 l2 r2,
@@ -54,19 +74,68 @@ Theorem C12_conflicting_commitments_are_equivocation : forall chk ct slot d s c,
   bd_add_shred chk ct slot d s = (d, AErr EEquivocation).
 Proof. exact conflicting_commitment_is_equivocation. Qed.
 
-(* known finding: one honest shred (slice 0, root 1, shred index 5) with its tag flipped to "coding",
-   arriving second, makes the blockstore report the (correct) leader *)
-Theorem C12_tag_flip_flags_correct_leader_refuted :
+(* ---------- the unsigned data / coding tag ---------- *)
+Theorem C12_tag_flip_is_harmless : forall chk ct slot sd op,
+  sd_panicked sd = false -> op_tag_ok op = false ->
+  bs_step chk ct slot sd op = (sd, BRErr EInvalidShred, []).
+Proof. exact bs_step_tag_bad. Qed.
+
+Theorem C12_tag_consistent_step_unchanged : forall chk ct slot sd op, op_tag_ok op = true ->
+  bs_step chk ct slot sd op = bs_step_gen false chk ct slot sd op.
+Proof. exact bs_step_tag_ok. Qed.
+
+Theorem C12_tag_flipped_shreds_leave_no_trace : forall ct slot l,
+  fst (bs_dissem_run ct slot l) = fst (bs_dissem_run ct slot (filter shred_tag_ok l)) /\
+  snd (bs_dissem_run ct slot l) = weave_refusals l (snd (bs_dissem_run ct slot (filter shred_tag_ok l))).
+Proof. exact run_filter_tag. Qed.
+
+Theorem C12_tag_flips_never_flag_correct_leader : forall slot ct hb l,
+  hb_ok slot ct hb = true -> forallb (honest_or_flipped hb) l = true ->
+  sd_misbehaved (fst (bs_dissem_run ct slot l)) = false /\
+  sd_panicked (fst (bs_dissem_run ct slot l)) = false /\
+  (forall r ev, In (r, ev) (snd (bs_dissem_run ct slot l)) ->
+     (r = BRErr EDuplicate \/ (exists x, r = BROk x) \/ (r = BRErr EInvalidShred /\ ev = [])) /\ ~ In BInvalidBlock ev) /\
+  exists parent, hb_parent ct hb = Some parent /\ (fst parent < slot)%N /\
+    filter is_block_event (out_events (snd (bs_dissem_run ct slot l))) =
+      (if block_ready hb (filter shred_tag_ok l) then [BBlock (hb_hash hb) parent] else []) /\
+    bd_completed (sd_dissem (fst (bs_dissem_run ct slot l))) =
+      (if block_ready hb (filter shred_tag_ok l) then Some (hb_hash hb, parent) else None).
+Proof. exact dissem_flipped_safe. Qed.
+
+(* pinned tree (no tag guard): one honest shred (slice 0, root 1, shred index 5) with its tag flipped to
+   "coding", arriving second among 33 deliveries of a one-slice honest block, got the (correct) leader flagged
+   and the block was never announced; with the guard the same deliveries announce the block.  The first three
+   conjuncts say that the hypotheses of C12_tag_flips_never_flag_correct_leader hold for this input
+   (non-vacuity) *)
+Theorem C12_pinned_tag_flip_flags_correct_leader_refuted :
+  hb_ok 2 tf_ct tf_hb = true /\ forallb (honest_or_flipped tf_hb) tf_shreds = true /\
+  block_ready tf_hb (filter shred_tag_ok tf_shreds) = true /\
+  sd_misbehaved (fst (bs_dissem_run_gen false tf_ct 2 tf_shreds)) = true /\
+  out_events (snd (bs_dissem_run_gen false tf_ct 2 tf_shreds)) = [BFirstShred; BInvalidBlock] /\
+  sd_misbehaved (fst (bs_dissem_run_gen true tf_ct 2 tf_shreds)) = false /\
+  out_events (snd (bs_dissem_run_gen true tf_ct 2 tf_shreds)) = [BFirstShred; BBlock [1%N] (1%N, 3%N)].
+Proof. exact pinned_tag_flip_flags_correct_leader. Qed.
+
+(* the single step of the recorded finding: pinned flags, current refuses without a trace *)
+Example C12_tag_flip_step :
   let ct := [(1%N, DecOk (Some (1%N, 3%N)) true)] in
   let s1 := mkBS 0 true 1 7 true 64 in
   let s2 := mkBS 0 true 1 5 false 64 in       (* index 5 is a data position, tag says coding *)
-  let '(sd1, _, _) := bs_step true ct 2%N sd_empty (BDissem s1) in
-  snd (bs_step true ct 2%N sd1 (BDissem s2)) = [BInvalidBlock].
-Proof. vm_compute. reflexivity. Qed.
+  shred_tag_ok s2 = false /\
+  (let '(sd1, _, _) := bs_step_gen false true ct 2%N sd_empty (BDissem s1) in
+   snd (bs_step_gen false true ct 2%N sd1 (BDissem s2)) = [BInvalidBlock]) /\
+  (let '(sd1, _, _) := bs_step true ct 2%N sd_empty (BDissem s1) in
+   bs_step true ct 2%N sd1 (BDissem s2) = (sd1, BRErr EInvalidShred, [])).
+Proof. vm_compute. repeat split; reflexivity. Qed.
 
 Print Assumptions C12_commitment_injective.
 Print Assumptions C12_accepted_only_if_signed.
 Print Assumptions C12_cache_shortcuts_only_identical.
 Print Assumptions C12_payload_bound_to_position.
 Print Assumptions C12_conflicting_commitments_are_equivocation.
-Print Assumptions C12_tag_flip_flags_correct_leader_refuted.
+Print Assumptions C12_tag_flip_is_harmless.
+Print Assumptions C12_tag_consistent_step_unchanged.
+Print Assumptions C12_tag_flipped_shreds_leave_no_trace.
+Print Assumptions C12_tag_flips_never_flag_correct_leader.
+Print Assumptions C12_pinned_tag_flip_flags_correct_leader_refuted.
+Print Assumptions C12_tag_flip_step.
